@@ -8,7 +8,11 @@ Three-way comparison per case, done by the Lean driver:
            PYTHON BUILT-IN run by the harness on the same input gives what the Lean reference functions
            (List.map / filter / mergeSort / first extreme / partition) give;
   * SPEC : the Lean observer `Tools.spec` (= the statement of C14, proved of the model for all inputs by
-           C14_spec_holds) judges the implementation's observation on its own."""
+           C14_spec_holds) judges the implementation's observation on its own.
+The model also carries WHAT KIND OF OBJECT the key / predicate is (FnObj: None, or a function object with the measured
+bool(f) and f == None), what kind of async function aretry's body is (BodyKind: runs when scheduled / runs eagerly
+inside fn.asynq(..)) and five kinds of iterable; the generator varies them (and, model-less: element __eq__/__hash__/
+__repr__, result objects, argument styles, call forms, warm-ups on the same thread)."""
 import hashlib
 import itertools
 import json
@@ -35,6 +39,10 @@ THEOREMS = [
     "AsynqModel.Tools.C14_aretry_count",
     "AsynqModel.Tools.C14_aretry_result",
     "AsynqModel.Tools.C14_aretry_unlisted_immediately",
+    "AsynqModel.Tools.C14_aretry_body_kind",
+    "AsynqModel.Tools.C14_aretry_flushes",
+    "AsynqModel.Tools.C14_fn_object_irrelevant",
+    "AsynqModel.Tools.C14_falsy_key_is_called",
     "AsynqModel.Tools.C14_one_round",
     "AsynqModel.Tools.C14_one_flush",
 ]
@@ -42,22 +50,40 @@ BUILDS = {"quick": ["py"], "thorough": ["py", "cy"]}
 EXHAUSTIVE = {"quick": False, "thorough": False}
 RULE = ("one helper invocation per case. Exhaustive core: every key/predicate pattern over {0,1}^n (n<=4 quick, n<=6 "
         "thorough) x every helper variant (amap, afilter fn/None, afilterfalse, asorted key/no key x reverse, amax/amin "
-        "key/no key x single-iterable/varargs, asift) x list/tuple/one-shot iterator x blocking/non-blocking key; all "
-        "(k, max_tries) pairs with k<=7, max_tries<=6 for aretry x ending (value/unlisted exception) x blocking, with "
-        "listed/unlisted classes deriving from Exception, from a listed base class, or from BaseException only (alone, "
-        "in a mixed tuple, aretry(BaseException)). "
-        "Generated: sizes 0-13 plus long inputs (257-1100 elements, for chunked issuing), elements = ints, orderable "
-        "objects with equal order but distinct identity, None, unorderable objects, duplicates of the same object, "
-        "equal keys, per-element blocking, call forms f(..) / f.asynq(..).value() / yielded from an outer task, "
-        "malformed calls (no argument, one non-iterable argument, unexpected keyword, non-iterable input, unorderable "
-        "values without key, max_tries=0). Non-trivial = at least 2 elements and (two distinct elements with equal "
-        "keys or a blocking key call), or an aretry case with at least one retry; distinct by hash of the case")
+        "key/no key x single-iterable/varargs, asift) x list/tuple/one-shot iterator x blocking/non-blocking key; the "
+        "same over n<=2 (3 thorough) x every KIND OF FUNCTION OBJECT (plain @asynq function, callable object that is "
+        "falsy through __bool__ or through __len__, object equal to everything incl. None, both, @async_proxy "
+        "function, bound @asynq method of a falsy instance) x every KIND OF ITERABLE (list, tuple, their subclasses, "
+        "iter(), generator, map object, iterator class, deque, class with __iter__, class with __getitem__ only, "
+        "falsy non-empty containers); all (k, max_tries) pairs with k<=7, max_tries<=6 for aretry x ending "
+        "(value/unlisted exception) x blocking, with listed/unlisted classes deriving from Exception, from a listed "
+        "base class, or from BaseException only (alone, in a mixed tuple, aretry(BaseException)), x every KIND OF "
+        "BODY (@asynq generator, @asynq plain function, @asynq method, @async_proxy function that raises while the "
+        "request is issued and returns a batch item / ConstFuture, @async_proxy returning ErrorFuture, falsy object "
+        "with a hand-written .asynq), a family max_tries in {11,17,33,65,100,129,257} with k around max_tries, and "
+        "a previous invocation of the same decorated function. "
+        "Generated: sizes 0-13 plus long inputs (257-1100 elements, for chunked issuing), elements = ints, int "
+        "subclass instances, orderable objects with equal order but distinct identity, None, unorderable objects "
+        "(with __eq__ = identity / always True + constant hash / unhashable / raising, raising __repr__), duplicates "
+        "of the same object, equal keys (int, int subclass, float), predicate results of 22 truthy/falsy kinds, "
+        "per-element blocking, call forms f(..) / f.asynq(..).value() / yielded from an outer task / from three "
+        "nested tasks / on a fresh thread, argument styles (documented, all positional, all by keyword, explicit "
+        "key=None), a warm-up on the same thread with the same function object (same call, a failing call, a "
+        "computation whose per-element task raised), malformed calls (no argument, one non-iterable argument, "
+        "unexpected keyword, non-iterable input, unorderable values without key, max_tries=0). Non-trivial = at "
+        "least 2 elements and (two distinct elements with equal keys or a blocking key call), or an aretry case with "
+        "at least one retry; distinct by hash of the case")
 TRUSTED = [
     "hand-written Lean model AsynqModel.Lib.Tools tied to asynq/tools.py by this differential run only",
     "Lean counterparts of the CPython built-ins sorted/max/min/zip/enumerate/filter/itertools.compress "
     "(pySorted, pyExt, ..): validated on every case by comparing the real built-in's result with the Lean reference",
     "Python harness checks/c14.py (token <-> object identity mapping, harness batch that records flush sizes, "
-    "time.sleep replaced by a counter)",
+    "time.sleep replaced by a counter; bool(f) and f == None of the function object are MEASURED and handed to the "
+    "model as FnObj; the Python kinds of iterable are mapped to the model's list/tuple/iterator/reiter by "
+    "isinstance(list, tuple) / one-shot / re-iterable)",
+    "element __eq__/__hash__/__repr__, the kind of key / predicate result object, the argument style, the call form "
+    "and the warm-up are dimensions of the GENERATOR only: the model has no state between invocations and never "
+    "looks at them, which is what the theorems quantifying over every Env say",
     "scheduler contract that the blocking tasks of one yield share one flush (properties C04/C05)",
 ]
 ASSUMPTIONS = [
@@ -68,7 +94,18 @@ ASSUMPTIONS = [
 CASE_TIMEOUT = 30
 UNKNOWN = 999999
 SRC_KINDS = ["list", "tuple", "iterator"]
+# Python kind of iterable -> kind in the model (what isinstance(.., (list, tuple)) and a second iteration see)
+SRC_MODEL = {"list": "list", "tuple": "tuple", "iterator": "iterator", "nonIter": "nonIter",
+             "listsub": "list", "tuplesub": "tuple", "mapobj": "iterator", "iterobj": "iterator",
+             "deque": "reiter", "reiter": "reiter", "getitem": "reiter"}
+SRC_MORE = ["listsub", "tuplesub", "mapobj", "iterobj", "deque", "reiter", "getitem"]
+SRC_FALSY_OK = ("listsub", "tuplesub", "iterobj", "reiter", "getitem")   # kinds that can be non-empty AND falsy
+FN_KINDS = ["plain", "falsy", "empty", "eqall", "falsyeq", "proxy", "method"]
+BODY_KINDS = ["gen", "plain", "method", "proxy", "proxyerr", "duck"]
+BODY_MODEL = {"gen": "lazy", "plain": "lazy", "method": "lazy", "proxy": "eager", "proxyerr": "eager", "duck": "eager"}
+ARG_STYLES = ["std", "pos", "kw"]
 FORMS = ["call", "asynq", "nested"]
+FORMS_MORE = ["nested3", "thread"]
 HELPERS = ["amap", "afilter", "afilterfalse", "asorted", "amax", "amin", "asift"]
 
 
@@ -76,18 +113,25 @@ HELPERS = ["amap", "afilter", "afilterfalse", "asorted", "amax", "amin", "asift"
 # generation
 # ---------------------------------------------------------------------------------------------------
 
-def elem(kind, key, pred, blocks, order=None, truthy=None):
-    """one universe entry; the token is its index in the universe"""
-    if kind == "int":
+def elem(kind, key, pred, blocks, order=None, truthy=None, eq=0, rr=0):
+    """one universe entry; the token is its index in the universe.
+    eq (objects only): 0 identity, 1 equal to everything + constant hash, 2 unhashable, 3 __eq__ raises; rr: __repr__ raises"""
+    if kind in ("int", "intsub"):
         truthy = 1 if order != 0 else 0
+        eq = 0
     elif kind == "none":
-        truthy, order = 0, None
+        truthy, order, eq, rr = 0, None, 0, 0
     elif kind == "opaque":
         order = None
         truthy = 1 if truthy is None else truthy
     elif kind == "ord":
         truthy = 1 if truthy is None else truthy
-    return {"k": kind, "key": key, "pred": pred, "truthy": truthy, "ord": order, "blocks": blocks}
+    u = {"k": kind, "key": key, "pred": pred, "truthy": truthy, "ord": order, "blocks": blocks}
+    if eq:
+        u["eq"] = eq
+    if rr and kind != "int":
+        u["rr"] = 1
+    return u
 
 
 def base_case(helper, univ, items, src="list", **kw):
@@ -128,9 +172,36 @@ def core_cases(maxn):
     return res
 
 
-def retry_case(max_tries, listed, script, blocking, single_cls=0, form="call", base_all=0):
-    return {"helper": "aretry", "max": max_tries, "listed": listed, "script": script, "blocking": blocking,
-            "single_cls": single_cls, "form": form, "base_all": base_all}
+def object_core(maxn):
+    """every KIND of function object x every KIND of iterable object, for every helper that takes a function, over
+    every 0/1 key pattern of at most maxn elements (key descending for amax so that the natural order of the values
+    is NOT the key order)"""
+    res = []
+    for n in range(maxn + 1):
+        for keys in itertools.product((0, 1), repeat=n):
+            for blocking in (0, 1):
+                # the values' own order is the REVERSE of the key order: a helper that drops the key is seen
+                univ = [elem("ord", k, k, blocking, order=1 - k, truthy=k) for k in keys]
+                for helper, flags in variants():
+                    if flags.get("fn_none") or flags.get("key_none"):
+                        continue
+                    for fnk in FN_KINDS:
+                        srcs = (["tuple"] if flags.get("args") == "elems" else SRC_KINDS + SRC_MORE)
+                        for src in srcs:
+                            if fnk == "plain" and src in SRC_KINDS:
+                                continue              # core_cases has it
+                            c = base_case(helper, univ, list(range(n)), src, fnk=fnk, **flags)
+                            if src in SRC_FALSY_OK and (n + blocking) % 2:
+                                c["src_falsy"] = 1
+                            res.append(c)
+    return res
+
+
+def retry_case(max_tries, listed, script, blocking, single_cls=0, form="call", base_all=0, **kw):
+    c = {"helper": "aretry", "max": max_tries, "listed": listed, "script": script, "blocking": blocking,
+         "single_cls": single_cls, "form": form, "base_all": base_all}
+    c.update(kw)
+    return c
 
 
 def retry_core():
@@ -141,6 +212,11 @@ def retry_core():
                 for blocking in (0, 1):
                     script = [["raise", 1 if i % 2 == 0 else 2] for i in range(k)] + [ending]
                     res.append(retry_case(m, [1, 2], script, blocking))
+                    # every kind of retried body: where the attempt raises (while the request is issued / when the
+                    # task is scheduled) must not matter
+                    for body in BODY_KINDS[1:]:
+                        res.append(retry_case(m, [1, 2], script, blocking, body=body,
+                                              argstyle=ARG_STYLES[(m + k) % 3]))
     # listed classes that derive from BaseException only: custom class alone, a tuple mixing both, BaseException itself;
     # and such a class raised while NOT listed (propagates at once)
     for m in range(1, 7):
@@ -148,9 +224,25 @@ def retry_core():
             for ending in (["ret", 7], ["raise", 3], ["raise", 6]):
                 script = [["raise", 5 if i % 2 == 0 else 1] for i in range(k)] + [ending]
                 res.append(retry_case(m, [1, 5], script, k % 2))
+                res.append(retry_case(m, [1, 5], script, k % 2, body=BODY_KINDS[1 + (m + k) % 5]))
                 res.append(retry_case(m, [5], [["raise", 5]] * k + [ending], 0, single_cls=k % 2))
                 res.append(retry_case(m, list(ALL_CLS), [["raise", 1 + (i % 6)] for i in range(k)] + [["ret", 2]],
                                       0, single_cls=k % 2, base_all=1))
+    # a threshold on max_tries / on the number of attempts: k around max_tries, for large max_tries
+    for m in (11, 17, 33, 65, 100, 129, 257):
+        for k in (m - 2, m - 1, m, m + 1):
+            for body in ("gen", "proxy"):
+                for ending in (["ret", 4], ["raise", 3]):
+                    script = [["raise", 1 if i % 3 else 4] for i in range(k)] + [ending]
+                    res.append(retry_case(m, [1], script, (m + k) % 2, single_cls=k % 2, body=body))
+    # second use of the same decorated function: a previous invocation that succeeded after retries, one that used up
+    # all its tries, one that failed with an unlisted exception - the next invocation starts from scratch
+    for m in range(1, 5):
+        for k in range(0, 6):
+            for wi, warm in enumerate(([["raise", 1], ["ret", 1]], [["raise", 1]] * m, [["raise", 3]])):
+                for body in ("gen", "proxy", "duck"):
+                    script = [["raise", 1 if i % 2 == 0 else 2] for i in range(k)] + [["ret", 7]]
+                    res.append(retry_case(m, [1, 2], script, (k + wi) % 2, body=body, warm=warm))
     return res
 
 
@@ -162,14 +254,25 @@ def gen_retry(rng):
     else:
         listed = sorted(rng.sample(ALL_CLS, rng.choice([0, 1, 1, 2, 3, 4])))
     n = rng.randint(0, 8)
-    script = []
-    for _ in range(n):
-        if rng.random() < 0.75:
-            script.append(["raise", rng.choice(listed) if listed and rng.random() < 0.7 else rng.randint(1, 6)])
-        else:
-            script.append(["ret", rng.randint(-3, 9)])
-    return retry_case(m, listed, script, rng.randint(0, 1), single_cls=rng.randint(0, 1), form=rng.choice(FORMS),
-                      base_all=base_all)
+
+    def steps(n):
+        script = []
+        for _ in range(n):
+            if rng.random() < 0.75:
+                script.append(["raise", rng.choice(listed) if listed and rng.random() < 0.7 else rng.randint(1, 6)])
+            else:
+                script.append(["ret", rng.randint(-3, 9)])
+        return script
+    kw = {}
+    if rng.random() < 0.5:
+        kw["body"] = rng.choice(BODY_KINDS)
+    if rng.random() < 0.3:
+        kw["argstyle"] = rng.choice(ARG_STYLES)
+    if rng.random() < 0.2:
+        kw["warm"] = steps(rng.randint(1, 4)) + ([["ret", 5]] if rng.random() < 0.5 else [])
+    form = rng.choice(FORMS + FORMS_MORE) if rng.random() < 0.3 else rng.choice(FORMS)
+    return retry_case(m, listed, steps(n), rng.randint(0, 1), single_cls=rng.randint(0, 1), form=form,
+                      base_all=base_all, **kw)
 
 
 def gen_collection(rng, helper=None, size=None):
@@ -177,11 +280,17 @@ def gen_collection(rng, helper=None, size=None):
     if size is None:
         size = rng.choice([0, 1, 2, 2, 3, 3, 4, 5, 6, 8, 13])
     flags = {"form": rng.choice(FORMS), "gen": rng.randint(0, 1)}
+    if rng.random() < 0.2:
+        flags["form"] = rng.choice(FORMS_MORE)
     src = rng.choice(SRC_KINDS + SRC_KINDS + SRC_KINDS + ["nonIter"]) if rng.random() < 0.5 else rng.choice(SRC_KINDS)
+    if rng.random() < 0.3:
+        src = rng.choice(SRC_MORE)
+        if src in SRC_FALSY_OK and rng.random() < 0.4:
+            flags["src_falsy"] = 1
     if helper == "afilter":
         flags["fn_none"] = 1 if rng.random() < 0.3 else 0
     if helper in ("asorted", "amax", "amin"):
-        flags["key_none"] = 1 if rng.random() < 0.3 else 0
+        flags["key_none"] = rng.choice([1, 2]) if rng.random() < 0.3 else 0   # 1 = no key argument, 2 = key=None
     if helper == "asorted":
         flags["rev"] = rng.randint(0, 1)
     if helper in ("amax", "amin"):
@@ -189,13 +298,24 @@ def gen_collection(rng, helper=None, size=None):
         flags["bad_kw"] = 1 if rng.random() < 0.06 else 0
         if flags["args"] == "elems":
             src = "tuple"
+            flags.pop("src_falsy", None)
             if rng.random() < 0.25:
                 size = rng.choice([0, 1])
+    # the function object, the argument style, what happened before on this thread
+    if rng.random() < 0.4:
+        flags["fnk"] = rng.choice(FN_KINDS)
+    if rng.random() < 0.25:
+        flags["argstyle"] = rng.choice(ARG_STYLES)
+    if rng.random() < 0.2:
+        flags["warm"] = rng.choice([1, 2, 3])
+    if rng.random() < 0.2:
+        flags["keyk"] = rng.choice([1, 2])           # key results: int subclass / float instead of int
     # elements
     nkeys = rng.choice([1, 2, 2, 3, 5, 50])
     blockmode = rng.choice(["all", "none", "mixed"])
     orderable_only = flags.get("key_none") and rng.random() < 0.8
-    kinds = ["int", "ord", "ord", "opaque", "none"] if not orderable_only else ["int", "ord", "ord"]
+    kinds = ["int", "ord", "ord", "opaque", "none", "intsub"] if not orderable_only else ["int", "ord", "ord", "intsub"]
+    odd = rng.random() < 0.3                           # objects with unusual __eq__ / __hash__ / __repr__
     univ = []
     used_ints = set()
     have_none = False
@@ -205,21 +325,24 @@ def gen_collection(rng, helper=None, size=None):
         key = rng.randint(-2, nkeys - 3)
         pred = rng.randint(0, 1)
         blocks = {"all": 1, "none": 0, "mixed": rng.randint(0, 1)}[blockmode]
+        eq = rng.choice([0, 1, 2, 3]) if odd else 0
+        rr = rng.randint(0, 1) if odd else 0
         if kind == "none" and have_none:
             kind = "opaque"
-        if kind == "int":
+        if kind in ("int", "intsub"):
             v = rng.randint(-3, 6)
             while v in used_ints:
                 v += 7
             used_ints.add(v)
-            univ.append(elem("int", key, pred, blocks, order=v))
+            univ.append(elem(kind, key, pred, blocks, order=v, rr=rr))
         elif kind == "ord":
-            univ.append(elem("ord", key, pred, blocks, order=rng.randint(-2, nkeys - 3), truthy=rng.randint(0, 1)))
+            univ.append(elem("ord", key, pred, blocks, order=rng.randint(-2, nkeys - 3), truthy=rng.randint(0, 1),
+                             eq=eq, rr=rr))
         elif kind == "none":
             have_none = True
             univ.append(elem("none", key, pred, blocks))
         else:
-            univ.append(elem("opaque", key, pred, blocks, truthy=rng.randint(0, 1)))
+            univ.append(elem("opaque", key, pred, blocks, truthy=rng.randint(0, 1), eq=eq, rr=rr))
     if nuniv >= size and rng.random() < 0.6:
         items = list(range(size))
         rng.shuffle(items)
@@ -231,7 +354,10 @@ def gen_collection(rng, helper=None, size=None):
 def gen_long(rng, helper, n):
     """long inputs: helpers that issue their per-element calls in chunks need more than one flush"""
     c = gen_collection(rng, helper, size=n)
-    c["src"] = rng.choice(SRC_KINDS) if c.get("args") != "elems" else "tuple"
+    if c.get("args") == "elems":
+        c["src"] = "tuple"
+    elif c["src"] == "nonIter":
+        c["src"] = rng.choice(SRC_KINDS)
     c["key_none"] = 0
     c["fn_none"] = 0
     c["bad_kw"] = 0
@@ -255,6 +381,7 @@ def plan(tier, seed):
     rng = random.Random(seed * 1000003 + 14)
     cases = corpus()
     cases += core_cases(4 if tier == "quick" else 6)
+    cases += object_core(2 if tier == "quick" else 3)
     cases += retry_core()
     longs = [257, 300, 513, 1100] if tier == "quick" else [129, 257, 258, 300, 513, 700, 1025, 1100, 2100]
     for h in HELPERS:
@@ -269,12 +396,18 @@ def plan(tier, seed):
 def shrink(case):
     if case["helper"] == "aretry":
         sc = case["script"]
-        for i in range(len(sc)):
+        for i in range(min(len(sc), 40)):
             yield dict(case, script=sc[:i] + sc[i + 1:])
+        if len(sc) > 8:
+            yield dict(case, script=sc[len(sc) // 2:])
         if case["max"] > 1:
             yield dict(case, max=case["max"] - 1)
+            yield dict(case, max=(case["max"] + 1) // 2)
         if case["blocking"]:
             yield dict(case, blocking=0)
+        for k, dflt in (("warm", None), ("argstyle", "std"), ("body", "gen"), ("form", "call")):
+            if case.get(k, dflt) != dflt:
+                yield dict(case, **{k: dflt})
         return
     items = case["items"]
     if len(items) > 8:
@@ -286,6 +419,13 @@ def shrink(case):
         yield dict(case, form="call")
     if case.get("gen"):
         yield dict(case, gen=0)
+    for k, dflt in (("warm", 0), ("argstyle", "std"), ("fnk", "plain"), ("keyk", 0), ("src_falsy", 0)):
+        if case.get(k, dflt) != dflt:
+            yield dict(case, **{k: dflt})
+    if case["src"] in SRC_MORE:
+        yield dict(case, src=SRC_MODEL[case["src"]] if SRC_MODEL[case["src"]] != "reiter" else "list", src_falsy=0)
+    if any(u.get("eq") or u.get("rr") for u in case["univ"]):
+        yield dict(case, univ=[{k: v for k, v in u.items() if k not in ("eq", "rr")} for u in case["univ"]])
     if any(u["blocks"] for u in case["univ"]):
         yield dict(case, univ=[dict(u, blocks=0) for u in case["univ"]])
     if any(u["key"] not in (0, 1) for u in case["univ"]):
@@ -316,7 +456,7 @@ def neighbours(case, rng):
 def signature(case, v):
     if case["helper"] == "aretry":
         return "aretry/%s" % v["spec"]
-    return "%s/%s/%s" % (case["helper"], case["src"], v["spec"])
+    return "%s/%s/%s" % (case["helper"], SRC_MODEL.get(case["src"], case["src"]), v["spec"])
 
 
 # ---------------------------------------------------------------------------------------------------
@@ -334,8 +474,8 @@ class Ord(object):
     def _v(o):
         if isinstance(o, Ord):
             return o.v
-        if type(o) is int:
-            return o
+        if isinstance(o, int) and not isinstance(o, bool):
+            return int(o)
         return None
 
     def __lt__(self, o):
@@ -370,8 +510,197 @@ class Opaque(object):
         return bool(self.truthy)
 
 
+class IntSub(int):
+    """a subclass of a built-in: ordered, truthy and hashed like the int it is"""
+
+
+class HarnessObjectError(Exception):
+    """raised by __eq__ / __repr__ of elements that must never be compared / printed"""
+
+
+_ELEM_CLS = {}
+
+
+def elem_cls(base, eq, rr):
+    """variant of an element class with an unusual __eq__ / __hash__ / __repr__ (a helper must only ever order the
+    KEYS and test truth values - never compare, hash or print the elements)"""
+    k = (base.__name__, eq, rr)
+    if k in _ELEM_CLS:
+        return _ELEM_CLS[k]
+    ns = {}
+    if eq == 1:
+        ns["__eq__"] = lambda self, o: True
+        ns["__ne__"] = lambda self, o: False
+        ns["__hash__"] = lambda self: 7
+    elif eq == 2:
+        ns["__eq__"] = lambda self, o: self is o
+        ns["__hash__"] = None
+    elif eq == 3:
+        def _raise(self, o):
+            raise HarnessObjectError("element compared with ==")
+        ns["__eq__"] = _raise
+        ns["__ne__"] = _raise
+        ns["__hash__"] = lambda self: id(self) >> 4
+    if rr:
+        def _repr(self):
+            raise HarnessObjectError("element printed")
+        ns["__repr__"] = _repr
+        ns["__str__"] = _repr
+    cls = type("%s_%d%d" % (base.__name__, eq, rr), (base,), ns) if ns else base
+    _ELEM_CLS[k] = cls
+    return cls
+
+
 class NotIterable(object):
     pass
+
+
+# ---- kinds of iterable ---------------------------------------------------------------------------------
+
+class ListSub(list):
+    falsy = False
+
+    def __bool__(self):
+        return not self.falsy
+
+
+class TupleSub(tuple):
+    falsy = False
+
+    def __bool__(self):
+        return not self.falsy
+
+
+class ReIter(object):
+    """a container that is neither list nor tuple: can be iterated again and again"""
+
+    def __init__(self, xs, falsy):
+        self.xs = list(xs)
+        self.falsy = falsy
+
+    def __iter__(self):
+        return iter(list(self.xs))
+
+    def __bool__(self):
+        return not self.falsy
+
+
+class GetItemOnly(object):
+    """iterable through the old __getitem__ protocol only"""
+
+    def __init__(self, xs, falsy):
+        self.xs = list(xs)
+        self.falsy = falsy
+
+    def __getitem__(self, i):
+        return self.xs[i]
+
+    def __bool__(self):
+        return not self.falsy
+
+
+class IterObj(object):
+    """a one-shot iterator class"""
+
+    def __init__(self, xs, falsy):
+        self.it = iter(list(xs))
+        self.falsy = falsy
+
+    def __iter__(self):
+        return self
+
+    def __next__(self):
+        return next(self.it)
+
+    def __bool__(self):
+        return not self.falsy
+
+
+def build_src(kind, elems, gen=0, falsy=0):
+    if kind == "list":
+        return list(elems)
+    if kind == "tuple":
+        return tuple(elems)
+    if kind == "iterator":
+        return (x for x in list(elems)) if gen else iter(list(elems))
+    if kind == "nonIter":
+        return NotIterable()
+    if kind == "listsub":
+        r = ListSub(elems)
+        r.falsy = bool(falsy)
+        return r
+    if kind == "tuplesub":
+        r = TupleSub(elems)
+        r.falsy = bool(falsy)
+        return r
+    if kind == "mapobj":
+        return map(lambda x: x, list(elems))
+    if kind == "iterobj":
+        return IterObj(elems, falsy)
+    if kind == "deque":
+        import collections
+        return collections.deque(elems)
+    if kind == "reiter":
+        return ReIter(elems, falsy)
+    if kind == "getitem":
+        return GetItemOnly(elems, falsy)
+    raise ValueError(kind)
+
+
+# ---- kinds of function object --------------------------------------------------------------------------
+
+class FnBool(object):
+    """a callable async function object whose truth value / equality is its own business"""
+
+    def __init__(self, afn, truthy, eqall):
+        self.afn = afn
+        self.truthy = truthy
+        self.eqall = eqall
+
+    def asynq(self, *a, **k):
+        return self.afn.asynq(*a, **k)
+
+    def __call__(self, *a, **k):
+        return self.afn(*a, **k)
+
+    def __bool__(self):
+        return bool(self.truthy)
+
+    def __eq__(self, o):
+        return True if self.eqall else self is o
+
+    def __ne__(self, o):
+        return False if self.eqall else self is not o
+
+    def __hash__(self):
+        return 11
+
+
+class FnLen(object):
+    """a callable memo table: falsy because it is (still) empty"""
+
+    def __init__(self, afn):
+        self.afn = afn
+
+    def asynq(self, *a, **k):
+        return self.afn.asynq(*a, **k)
+
+    def __call__(self, *a, **k):
+        return self.afn(*a, **k)
+
+    def __len__(self):
+        return 0
+
+
+def fn_token(f):
+    """the function object as the model sees it: None, or (bool(f), f == None) as MEASURED"""
+    if f is None:
+        return "none"
+    try:
+        e = 1 if f == None else 0   # noqa: E711 - the point is what == answers
+    except Exception:
+        e = 0
+    return "(fn %d %d)" % (1 if f else 0, e)
 
 
 class E1(Exception):
@@ -400,8 +729,29 @@ class B6(BaseException):
 
 EXC = {1: E1, 2: E2, 3: E3, 4: E4, 5: B5, 6: B6}
 ALL_CLS = [1, 2, 3, 4, 5, 6]
-TRUTHY = [True, 1, "x", (0,)]
-FALSY = [False, 0, None, "", ()]
+
+
+class TruthyObj(object):
+    pass
+
+
+class FalsyBool(object):
+    def __bool__(self):
+        return False
+
+
+class FalsyLen(object):
+    def __len__(self):
+        return 0
+
+
+class TruthyLen(object):
+    def __len__(self):
+        return 3
+
+
+TRUTHY = [True, 1, "x", (0,), TruthyObj(), [0], -1, 2, 0.5, TruthyLen(), {0: 0}]
+FALSY = [False, 0, None, "", (), FalsyBool(), FalsyLen(), 0.0, [], {}, b""]
 
 
 def exc_res(e, raised=None):
@@ -417,11 +767,18 @@ def exc_res(e, raised=None):
     return "(raised other %s)" % t.__name__
 
 
+def case_hash(case):
+    return hashlib.sha1(json.dumps({k: v for k, v in case.items() if k != "id"},
+                                   sort_keys=True).encode()).hexdigest()[:16]
+
+
 def run_case(case):
+    import threading
     import time
 
     import asynq
     from asynq import batching, tools
+    from asynq.futures import ConstFuture, ErrorFuture
 
     class State(object):
         cur = None
@@ -439,47 +796,80 @@ def run_case(case):
         def _flush(self):
             st.flushes.append(len(self.items))
             for it in self.items:
-                it.set_value(None)
+                it.set_value(it.val)
 
         def _cancel(self):
             pass
 
     class HItem(batching.BatchItemBase):
-        def __init__(self):
+        def __init__(self, val=None):
             if st.cur is None:
                 st.cur = HBatch()
             super(HItem, self).__init__(st.cur)
+            self.val = val
 
     def call(fn, args, kwargs):
-        """the three ways of invoking an async function"""
+        """the ways of invoking an async function"""
         form = case["form"]
         if form == "call":
             return fn(*args, **kwargs)
         if form == "asynq":
             return fn.asynq(*args, **kwargs).value()
+        if form == "thread":
+            # a fresh thread: its own scheduler state
+            box = []
+
+            def target():
+                try:
+                    box.append((True, fn(*args, **kwargs)))
+                except BaseException as e:
+                    box.append((False, e))
+            th = threading.Thread(target=target)
+            th.start()
+            th.join()
+            if box[0][0]:
+                return box[0][1]
+            raise box[0][1]
 
         @asynq.asynq()
         def outer():
             r = yield fn.asynq(*args, **kwargs)
             return r
-        return outer()
+        if form == "nested":
+            return outer()
+
+        @asynq.asynq()
+        def outer2():
+            r = yield outer.asynq()
+            return r
+
+        @asynq.asynq()
+        def outer3():
+            r = yield outer2.asynq()
+            return r
+        if form == "nested3":
+            return outer3()
+        raise ValueError(form)
 
     helper = case["helper"]
     if helper == "aretry":
-        return run_retry(case, st, HItem, call, asynq, tools, time)
+        return run_retry(case, st, HItem, call, asynq, tools, time, ConstFuture, ErrorFuture)
 
     # ---- universe: token -> object ------------------------------------------------------------
     objs = []
     for u in case["univ"]:
         k = u["k"]
+        eq, rr = u.get("eq", 0), u.get("rr", 0)
         if k == "int":
             o = u["ord"]
+        elif k == "intsub":
+            o = elem_cls(IntSub, 0, rr)(u["ord"])
         elif k == "ord":
-            o = Ord(u["ord"], u["truthy"])
+            o = elem_cls(Ord, eq, rr)(u["ord"], u["truthy"])
         elif k == "none":
             o = None
         elif k == "opaque":
-            o = Opaque(u["truthy"])
+            o = elem_cls(Opaque, eq, rr)(u["truthy"])
         else:
             raise ValueError(k)
         if bool(o) != bool(u["truthy"]):
@@ -497,36 +887,70 @@ def run_case(case):
         t = tok[id(x)]
         return TRUTHY[t % len(TRUTHY)] if u["pred"] else FALSY[t % len(FALSY)]
 
+    # the key results: ints, or (keyk) instances of an int subclass / floats of the same value - one object per element
+    keyk = case.get("keyk", 0)
+    keyobjs = {}
+    keyval = {}
+    for o, u in zip(objs, case["univ"]):
+        kv = u["key"]
+        ko = kv if keyk == 0 else IntSub(kv) if keyk == 1 else float(kv)
+        keyobjs[id(o)] = ko
+        keyval[id(ko)] = kv
+
     def sync_key(x):
-        return attr[id(x)]["key"]
+        return keyobjs[id(x)]
 
-    @asynq.asynq()
-    def akey(x):
-        st.calls += 1
-        if attr[id(x)]["blocks"]:
-            yield HItem()
-        return attr[id(x)]["key"]
+    fnk = case.get("fnk", "plain")
 
-    @asynq.asynq()
-    def apred(x):
-        st.calls += 1
-        if attr[id(x)]["blocks"]:
-            yield HItem()
-        return pred_obj(x)
+    def make_fn(result_of):
+        """the async key / predicate as an object of the kind the case asks for"""
+        @asynq.asynq()
+        def lazy_fn(x):
+            st.calls += 1
+            if attr[id(x)]["blocks"]:
+                yield HItem()
+            return result_of(x)
+
+        if fnk == "plain":
+            return lazy_fn
+        if fnk == "falsy":
+            return FnBool(lazy_fn, 0, 0)
+        if fnk == "eqall":
+            return FnBool(lazy_fn, 1, 1)
+        if fnk == "falsyeq":
+            return FnBool(lazy_fn, 0, 1)
+        if fnk == "empty":
+            return FnLen(lazy_fn)
+        if fnk == "proxy":
+            # an eager async function: the body runs while the request is issued and hands back a future
+            @asynq.async_proxy()
+            def eager_fn(x):
+                st.calls += 1
+                if attr[id(x)]["blocks"]:
+                    return HItem(result_of(x))
+                return ConstFuture(result_of(x))
+            return eager_fn
+        if fnk == "method":
+            class Table(object):
+                def __len__(self):
+                    return 0
+
+                @asynq.asynq()
+                def look(self, x):
+                    st.calls += 1
+                    if attr[id(x)]["blocks"]:
+                        yield HItem()
+                    return result_of(x)
+            return Table().look
+        raise ValueError(fnk)
+
+    akey = make_fn(sync_key)
+    apred = make_fn(pred_obj)
 
     elems = [objs[t] for t in case["items"]]
 
     def make_src():
-        kind = case["src"]
-        if kind == "list":
-            return list(elems)
-        if kind == "tuple":
-            return tuple(elems)
-        if kind == "iterator":
-            return (x for x in list(elems)) if case.get("gen") else iter(list(elems))
-        if kind == "nonIter":
-            return NotIterable()
-        raise ValueError(kind)
+        return build_src(case["src"], elems, case.get("gen", 0), case.get("src_falsy", 0))
 
     def tl(xs):
         return "(%s)" % " ".join(str(tok.get(id(x), UNKNOWN)) for x in xs)
@@ -534,8 +958,8 @@ def run_case(case):
     def enc(value):
         """canonical form of a helper's / built-in's return value"""
         if helper == "amap":
-            if type(value) is list and all(type(v) is int for v in value):
-                return "(ok vals (%s))" % " ".join(str(v) for v in value)
+            if type(value) is list and all(id(v) in keyval or type(v) is int for v in value):
+                return "(ok vals (%s))" % " ".join(str(keyval.get(id(v), v)) for v in value)
         elif helper in ("afilter", "afilterfalse", "asorted"):
             if type(value) is list:
                 return "(ok elems %s)" % tl(value)
@@ -549,31 +973,49 @@ def run_case(case):
     key_none = case.get("key_none", 0)
     fn_none = case.get("fn_none", 0)
     rev = bool(case.get("rev", 0))
+    style = case.get("argstyle", "std")
 
     def invoke(sync):
         """sync=False: the asynq helper;  sync=True: the Python built-in with the synchronous equivalent"""
         if helper == "amap":
-            return list(map(sync_key, make_src())) if sync else call(tools.amap, (akey, make_src()), {})
+            if sync:
+                return list(map(sync_key, make_src()))
+            if style == "kw":
+                return call(tools.amap, (), {"function": akey, "sequence": make_src()})
+            return call(tools.amap, (akey, make_src()), {})
         if helper == "afilter":
             if sync:
                 return list(filter(None if fn_none else pred_obj, make_src()))
-            return call(tools.afilter, (None if fn_none else apred, make_src()), {})
+            f = None if fn_none else apred
+            if style == "kw":
+                return call(tools.afilter, (), {"function": f, "sequence": make_src()})
+            return call(tools.afilter, (f, make_src()), {})
         if helper == "afilterfalse":
             if sync:
                 return list(itertools.filterfalse(pred_obj, make_src()))
+            if style == "kw":
+                return call(tools.afilterfalse, (), {"function": apred, "sequence": make_src()})
             return call(tools.afilterfalse, (apred, make_src()), {})
         if helper == "asorted":
             if sync:
                 return sorted(make_src(), key=None if key_none else sync_key, reverse=rev)
+            f = None if key_none else akey
+            if style == "pos":
+                return call(tools.asorted, (make_src(), f, rev), {})
             kw = {"reverse": rev}
-            if not key_none:
-                kw["key"] = akey
+            if key_none != 1:
+                kw["key"] = f                  # key_none == 2: an explicit key=None
+            if style == "kw":
+                kw["iterable"] = make_src()
+                return call(tools.asorted, (), kw)
             return call(tools.asorted, (make_src(),), kw)
         if helper in ("amax", "amin"):
             args = tuple(elems) if case["args"] == "elems" else (make_src(),)
             kw = {}
             if not key_none:
                 kw["key"] = sync_key if sync else akey
+            elif key_none == 2:
+                kw["key"] = None
             if case.get("bad_kw"):
                 kw["bogus"] = 1
             if sync:
@@ -583,6 +1025,8 @@ def run_case(case):
             if sync:
                 seq = list(make_src())
                 return ([x for x in seq if pred_obj(x)], [x for x in seq if not pred_obj(x)])
+            if style == "kw":
+                return call(tools.asift, (), {"pred": apred, "items": make_src()})
             return call(tools.asift, (apred, make_src()), {})
         raise ValueError(helper)
 
@@ -590,6 +1034,39 @@ def run_case(case):
         builtin = enc(invoke(True))
     except Exception as e:
         builtin = exc_res(e)
+
+    # ---- what happened before on this thread, with the same function objects -----------------------
+    warm = case.get("warm", 0)
+    if warm == 1:
+        try:
+            invoke(False)
+        except Exception:
+            pass
+    elif warm == 2:
+        try:
+            call(tools.amax, ((),), {"key": akey})          # ValueError after the (empty) round of key calls
+        except ValueError:
+            pass
+        try:
+            call(tools.asift, (apred, NotIterable()), {})    # TypeError before anything is called
+        except TypeError:
+            pass
+    elif warm == 3:
+        @asynq.asynq()
+        def bad(x):
+            yield HItem()
+            if x == 1:
+                raise E1("warm-up")
+            return x
+        try:
+            call(tools.amap, (bad, [0, 1, 2]), {})
+        except E1:
+            pass
+
+    # the function object as Python sees it NOW (a memo table may have become non-empty)
+    fobj = None if (fn_none if helper == "afilter" else key_none) else (apred if helper in ("afilter", "afilterfalse", "asift") else akey)
+    ftok = fn_token(fobj)
+
     st.cur, st.flushes, st.calls = None, [], 0
     try:
         res = enc(invoke(False))
@@ -603,18 +1080,18 @@ def run_case(case):
         "(%d %d %d %s %d)" % (u["key"], u["pred"], u["truthy"], "none" if u["ord"] is None else u["ord"], u["blocks"])
         for u in case["univ"]))
     items = "(%s)" % " ".join(str(t) for t in case["items"])
-    srcx = "(src %s %s)" % (case["src"], items)
+    srcx = "(src %s %s)" % (SRC_MODEL[case["src"]], items)
     if helper == "amap":
         lines.append("(call amap %s)" % srcx)
     elif helper == "afilter":
-        lines.append("(call afilter %d %s)" % (fn_none, srcx))
+        lines.append("(call afilter %s %s)" % (ftok, srcx))
     elif helper == "afilterfalse":
         lines.append("(call afilterfalse %s)" % srcx)
     elif helper == "asorted":
-        lines.append("(call asorted %d %d %s)" % (key_none, 1 if rev else 0, srcx))
+        lines.append("(call asorted %s %d %s)" % (ftok, 1 if rev else 0, srcx))
     elif helper in ("amax", "amin"):
         a = "(elems %s)" % items if case["args"] == "elems" else "(one %s)" % srcx
-        lines.append("(call amaxmin %d %d %d %s)" % (1 if helper == "amin" else 0, case.get("bad_kw", 0), key_none, a))
+        lines.append("(call amaxmin %d %d %s %s)" % (1 if helper == "amin" else 0, case.get("bad_kw", 0), ftok, a))
     elif helper == "asift":
         lines.append("(call asift %s)" % srcx)
     lines.append("(obs %s (flushes%s) %d 0)" % (res, "".join(" %d" % f for f in flushes), calls))
@@ -632,7 +1109,9 @@ def run_case(case):
              "size<=%d" % next(b for b in (0, 1, 3, 8, 16, 256, 10 ** 9) if n <= b),
              "blocking=" + ("none" if nblock == 0 else "all" if nblock == n else "mixed"),
              "outcome=" + (res.split()[1].rstrip(")") if res.startswith("(raised") else "ok"),
-             "flushes=%d" % min(len(flushes), 3)]
+             "flushes=%d" % min(len(flushes), 3),
+             "fn-object=" + (fnk if fobj is not None else "None"), "fn-token=" + ftok.replace(" ", "_"),
+             "argstyle=" + style, "warm=%d" % warm, "keyk=%d" % keyk]
     if ties:
         feats.append("ties")
     if len(toks) < n:
@@ -641,41 +1120,101 @@ def run_case(case):
         feats.append("unorderable-values")
     if any(case["univ"][t]["k"] == "none" for t in toks):
         feats.append("None-element")
-    for f in ("fn_none", "key_none", "rev", "bad_kw", "gen"):
+    if any(case["univ"][t]["k"] == "intsub" for t in toks):
+        feats.append("int-subclass-element")
+    for t in toks:
+        if case["univ"][t].get("eq"):
+            feats.append("elem-eq=%d" % case["univ"][t]["eq"])
+        if case["univ"][t].get("rr"):
+            feats.append("elem-repr-raises")
+    for f in ("fn_none", "rev", "bad_kw", "gen", "src_falsy"):
         if case.get(f):
             feats.append(f)
+    if key_none:
+        feats.append("key_none=%d" % key_none)
     if helper in ("amax", "amin"):
         feats.append("args=" + case["args"])
+    feats = sorted(set(feats))
     nontrivial = None
     if n >= 2 and (ties or nblock >= 1) and not res.startswith("(raised"):
-        nontrivial = hashlib.sha1(json.dumps({k: v for k, v in case.items() if k != "id"},
-                                             sort_keys=True).encode()).hexdigest()[:16]
+        nontrivial = case_hash(case)
     return {"lines": lines, "features": feats, "nontrivial": nontrivial}
 
 
-def run_retry(case, st, HItem, call, asynq, tools, time):
-    script = case["script"]
+def run_retry(case, st, HItem, call, asynq, tools, time, ConstFuture, ErrorFuture):
+    phase = {"script": case["script"]}
     raised = {}
     keep = []
     A, B = object(), object()
     ok_args = [True]
-    blocking = case["blocking"]
+    body_kind = case.get("body", "gen")
+    blocking = 1 if (case["blocking"] and body_kind != "plain") else 0   # a plain function cannot block
 
-    @asynq.asynq()
-    def body(a, b=None):
+    def attempt(a, b):
+        """one run of the body up to the point where it knows what to do: ('ret', v) or ('raise', exception)"""
         i = st.calls
         st.calls += 1
         if a is not A or b is not B:
             ok_args[0] = False
-        if blocking:
-            yield HItem()
+        script = phase["script"]
         step = script[i] if i < len(script) else ["ret", 0]
         if step[0] == "ret":
-            return step[1]
+            return ("ret", step[1])
         e = EXC[step[1]]("attempt %d" % i)
         raised[id(e)] = (step[1], i)
         keep.append(e)
-        raise e
+        return ("raise", e)
+
+    def eager(a, b=None):
+        what, x = attempt(a, b)
+        if what == "raise":
+            if body_kind == "proxyerr":
+                return ErrorFuture(x)          # raised when the future is yielded
+            raise x                            # raised while the request is being issued
+        return HItem(x) if blocking else ConstFuture(x)
+
+    if body_kind == "gen":
+        @asynq.asynq()
+        def body(a, b=None):
+            what, x = attempt(a, b)
+            if blocking:
+                yield HItem()
+            if what == "raise":
+                raise x
+            return x
+    elif body_kind == "plain":
+        @asynq.asynq()
+        def body(a, b=None):
+            what, x = attempt(a, b)
+            if what == "raise":
+                raise x
+            return x
+    elif body_kind == "method":
+        @asynq.asynq()
+        def body(self, a, b=None):
+            what, x = attempt(a, b)
+            if blocking:
+                yield HItem()
+            if what == "raise":
+                raise x
+            return x
+    elif body_kind in ("proxy", "proxyerr"):
+        body = asynq.async_proxy()(eager)
+    elif body_kind == "duck":
+        class Duck(object):
+            """a falsy object with a hand-written .asynq"""
+
+            def __len__(self):
+                return 0
+
+            def asynq(self, a, b=None):
+                return eager(a, b)
+
+            def __call__(self, a, b=None):
+                return eager(a, b).value()
+        body = Duck()
+    else:
+        raise ValueError(body_kind)
 
     listed = tuple(EXC[c] for c in case["listed"])
     if case.get("base_all"):
@@ -690,11 +1229,36 @@ def run_retry(case, st, HItem, call, asynq, tools, time):
     def fake_sleep(x):
         sleeps[0] += 1 if x == sleep_arg else 1000
 
+    style = case.get("argstyle", "std")
+
+    def decorate():
+        if style == "pos":
+            deco = tools.aretry(listed, case["max"], sleep_arg)
+        elif style == "kw":
+            deco = tools.aretry(exception_cls=listed, max_tries=case["max"], sleep=sleep_arg)
+        else:
+            deco = tools.aretry(listed, max_tries=case["max"], sleep=sleep_arg)
+        if body_kind == "method":
+            svc = type("Svc", (object,), {"__len__": lambda self: 0, "fetch": deco(body)})()
+            return svc.fetch
+        return deco(body)
+
     real_sleep = time.sleep
     time.sleep = fake_sleep   # scripted clock: aretry must not really sleep, and its sleeps are counted
     try:
         try:
-            wrapped = tools.aretry(listed, max_tries=case["max"], sleep=sleep_arg)(body)
+            wrapped = decorate()
+            if case.get("warm"):
+                # a previous invocation of the SAME decorated function on this thread
+                phase["script"] = case["warm"]
+                try:
+                    call(wrapped, (A,), {"b": B})
+                except BaseException as e:
+                    if id(e) not in raised:
+                        raise
+                phase["script"] = case["script"]
+                st.cur, st.flushes, st.calls, sleeps[0] = None, [], 0, 0
+                raised.clear()
             v = call(wrapped, (A,), {"b": B})
             if v is None:
                 res = "(ok none)"
@@ -713,16 +1277,19 @@ def run_retry(case, st, HItem, call, asynq, tools, time):
     if not ok_args[0]:
         res = "(raised other ArgumentsNotForwarded)"
     lines = ["(case tools %d aretry)" % case["id"], "(univ)"]
-    lines.append("(call aretry %d (%s) (script %s) %d)" % (
+    lines.append("(call aretry %d (%s) (script %s) %d %s)" % (
         case["max"], " ".join(str(c) for c in case["listed"]),
-        " ".join("(%s %d)" % (s[0], s[1]) for s in script), 1 if blocking else 0))
+        " ".join("(%s %d)" % (s[0], s[1]) for s in case["script"]), blocking, BODY_MODEL[body_kind]))
     lines.append("(obs %s (flushes%s) %d %d)" % (res, "".join(" %d" % f for f in st.flushes), st.calls, sleeps[0]))
     lines.append("(end)")
     feats = ["helper=aretry", "form=" + case["form"], "max_tries=%d" % min(case["max"], 7), "runs=%d" % min(st.calls, 7),
-             "blocking=" + ("all" if blocking else "none"),
+             "blocking=" + ("all" if blocking else "none"), "body=" + body_kind, "argstyle=" + style,
              "outcome=" + (res.split()[1].rstrip(")") if res.startswith("(raised") else "ok")]
+    if case["max"] > 10:
+        feats.append("max_tries>10")
+    if case.get("warm"):
+        feats.append("second-use")
     nontrivial = None
     if st.calls >= 2:
-        nontrivial = hashlib.sha1(json.dumps({k: v for k, v in case.items() if k != "id"},
-                                             sort_keys=True).encode()).hexdigest()[:16]
+        nontrivial = case_hash(case)
     return {"lines": lines, "features": feats, "nontrivial": nontrivial}
